@@ -21,6 +21,8 @@ CONSTANTS Agents,        \* set of strings, e.g. {"a1","a2"}
           UseSize,       \* counted size of the FS-upload job that consumes a memfile
           RawSizes,      \* counted sizes of directly queued relay-style jobs
           FileSizes,     \* sizes of files pushed with "upload"
+          WrapOverhead,  \* 0 for an agent that talks to the teamserver itself; for an agent behind an SMB pivot its tasks wait in the
+                         \* first hop's queue wrapped in a COMMAND_PIVOT job: sub-command, agent id, and what the pivot writes to the pipe (agent id, length, 12 bytes of task header + body): 32 bytes around the body
           MaxOps         \* bound on the length of generated behaviours
 
 VARIABLES queue,      \* [Agents -> Seq(job)]   job = [id, sz, kind, file, len]
@@ -71,7 +73,7 @@ Log(op, a, arg) == hist' = Append(hist, [op |-> op, a |-> a, arg |-> arg])
 
 -----------------------------------------------------------------------------
 EnqOp(a) ==   \* an operator queues a small task (DispatchEvent -> TaskPrepare -> AddJobToQueue)
-    /\ queue' = [queue EXCEPT ![a] = Append(@, Job(nextId, OpSize, "op", 0, 0))]
+    /\ queue' = [queue EXCEPT ![a] = Append(@, Job(nextId, OpSize + WrapOverhead, "op", 0, 0))]
     /\ enq' = [enq EXCEPT ![a] = Append(@, nextId)]
     /\ nextId' = nextId + 1
     /\ reply' = NoReply
@@ -79,7 +81,7 @@ EnqOp(a) ==   \* an operator queues a small task (DispatchEvent -> TaskPrepare -
     /\ Log("EnqOp", a, 0)
 
 EnqRaw(a, s) ==   \* a relay-style producer queues a job of counted size s (AddJobToQueue)
-    /\ queue' = [queue EXCEPT ![a] = Append(@, Job(nextId, s, "raw", 0, 0))]
+    /\ queue' = [queue EXCEPT ![a] = Append(@, Job(nextId, s + WrapOverhead, "raw", 0, 0))]
     /\ enq' = [enq EXCEPT ![a] = Append(@, nextId)]
     /\ nextId' = nextId + 1
     /\ reply' = NoReply
@@ -127,6 +129,10 @@ Next == /\ Len(hist) < MaxOps
               \/ \E asks \in BOOLEAN : CheckIn(a, asks)
 
 Spec == Init /\ [][Next]_vars
+(* the agent behind a pivot: operator tasks and relayed data, handed out at the first hop's check-ins *)
+PivotNext == /\ Len(hist) < MaxOps
+             /\ \E a \in Agents : EnqOp(a) \/ (\E s \in RawSizes : EnqRaw(a, s)) \/ (\E asks \in BOOLEAN : CheckIn(a, asks))
+PivotSpec == Init /\ [][PivotNext]_vars
 
 -----------------------------------------------------------------------------
 (* The property (C04), clause by clause. *)
